@@ -78,6 +78,9 @@ type NodeSpec struct {
 	MaxConns    int    `json:"maxConns"`    // accept at most this many simultaneous connections (0 = unlimited)
 	ReplyDelayM int    `json:"replyDelayMs"` // delay before each headers reply
 	Services    uint64 `json:"services"`    // 0 = SFNodeNetwork
+	// IgnoreStop: replies run up to the cap and do not end at the requested stop hash (a batch may then carry a
+	// checkpoint header in its middle)
+	IgnoreStop bool `json:"ignoreStop"`
 	// AnnounceByHeadersAlways: announce by headers even without sendheaders (non-BIP130 behaviour; separately classed)
 	AnnounceByHeadersAlways bool `json:"announceByHeadersAlways"`
 }
@@ -118,6 +121,7 @@ type conn struct {
 	sentVersion bool
 	afterOffend int // getheaders received after an offending reply was sent
 	offended    bool
+	offendedAt  time.Time
 }
 
 // NewNode starts a node holding chain.
@@ -325,7 +329,8 @@ func (n *Node) onGetHeaders(cn *conn, m *wire.MsgGetHeaders) bool {
 	n.mu.Lock()
 	cn.getHeaders++
 	k := cn.getHeaders
-	if cn.offended {
+	if cn.offended && time.Since(cn.offendedAt) > 100*time.Millisecond {
+		// requests that were already on their way when the offending reply was sent do not count
 		cn.afterOffend++
 	}
 	spec := n.Spec
@@ -353,7 +358,7 @@ func (n *Node) onGetHeaders(cn *conn, m *wire.MsgGetHeaders) bool {
 	var reply []*wire.BlockHeader
 	for h := int(start); h < end; h++ { // chain[h] has height h+1
 		reply = append(reply, n.chain[h].H)
-		if n.chain[h].Hash == m.HashStop {
+		if n.chain[h].Hash == m.HashStop && !spec.IgnoreStop {
 			break
 		}
 	}
@@ -361,8 +366,9 @@ func (n *Node) onGetHeaders(cn *conn, m *wire.MsgGetHeaders) bool {
 	stalled := spec.StallAt > 0 && k >= spec.StallAt
 	if !stalled && len(n.Offending) > 0 {
 		for _, h := range reply {
-			if n.Offending[h.BlockHash()] {
+			if n.Offending[h.BlockHash()] && !cn.offended {
 				cn.offended = true
+				cn.offendedAt = time.Now()
 			}
 		}
 	}
@@ -379,7 +385,10 @@ func (n *Node) onGetHeaders(cn *conn, m *wire.MsgGetHeaders) bool {
 		reply, offending = insert(reply, cn.id, k)
 		if offending {
 			n.mu.Lock()
-			cn.offended = true
+			if !cn.offended {
+				cn.offended = true
+				cn.offendedAt = time.Now()
+			}
 			n.mu.Unlock()
 		}
 	}
